@@ -3,7 +3,7 @@ import core
 from core import Case, Line, case_rng
 import proto
 import gram
-from impl import trees, grammar, grammaranalysis, quiet
+from impl import trees, grammar, grammaranalysis, quiet, clone
 
 ID = "C06"
 MODULE = ['TT.Props.C06', 'TT.Props.C06More']
@@ -16,7 +16,7 @@ ASSUMPTIONS = ["trees are well formed"]
 
 
 HIST = ["root_attach", "punctuation_root", "punctuation_verylow", "punctuation_symetrify", "heads+boyd_split+raising",
-        "punctuation_delete"]
+        "punctuation_delete", "add_topnode", "collapse_unary_chains"]
 
 
 def one(rng, with_past=False):
@@ -30,7 +30,10 @@ def one(rng, with_past=False):
             if t.data.get('label') != "VROOT":
                 ts2.append(t)          # export / TIGER-XML do not carry another root label
                 continue
-            t2, p = history.aged(rng, t, allowed=HIST)
+            # the treebank may list one object several times: every occurrence gets a past of its own
+            c = clone(t)
+            c.data['sid'] = t.data.get('sid')
+            t2, p = history.aged(rng, c, allowed=HIST)
             past.append(p)
             ts2.append(t2)
         ts = ts2
